@@ -33,6 +33,7 @@ THEOREMS = [
     "Qentem.Props.C12.append_array",
     "Qentem.Props.C12.merge_arrays",
     "Qentem.Props.C12.merge_into_undefined",
+    "Qentem.Props.C12.merge_copy_eq_move_of_copy",
     "Qentem.Props.C12.merge_is_fold",
     "Qentem.Props.C12.merge_keeps_other",
     "Qentem.Props.C12.merge_takes_source",
@@ -228,7 +229,7 @@ def check_laws(ops, impl_line):
         t = op.split(" ")
         name = t[0]
         changed = set()
-        if name in ("set", "typ", "app", "ins", "rem", "rmi", "rst", "cmp", "ptr", "adp"):
+        if name in ("set", "typ", "app", "ins", "rem", "rmi", "rst", "cmp", "ptr", "adp", "rsv", "clr"):
             tr, tp = parse_loc(t[1])
             changed = {tr}
         elif name == "grp":
@@ -290,6 +291,20 @@ def check_laws(ops, impl_line):
                 want = py_compress(prev[tr])
                 if nocap(noptr(cur[tr])) != nocap(noptr(want)):
                     out.append(("compress", "after '%s' the root is %r, expected the live members in order: %r" % (op, cur[tr], want)))
+        # Merge of arrays appends exactly the members (the non-Undefined elements) of the source, in order;
+        # the copying overload leaves the source as it was (= the moving overload applied to a copy)
+        if name == "mrg" and tr != sr:
+            src_before = navigate(prev[sr], sp, False)
+            prior = navigate(prev[tr], tp, True) or ("U",)
+            if src_before is not None and src_before[0] == "a" and prior[0] in ("a", "U"):
+                base = prior[1] if prior[0] == "a" else []
+                want = ("a", [noptr(x) for x in base] + [noptr(x) for x in src_before[1] if x != ("U",)])
+                node = navigate(cur[tr], tp, True)
+                if node is None or V.abstract(noptr(node)) != V.abstract(want):
+                    out.append(("merge-array", "after '%s' the target is %r; expected its items followed by the %d members of the source %r" % (
+                        op, node, len([x for x in src_before[1] if x != ("U",)]), src_before)))
+                if t[3] == "b" and noptr(cur[sr]) != noptr(prev[sr]):
+                    out.append(("merge-array", "'%s' (copying overload) changed its source" % op))
         if name == "rem" and not tp and prev[tr][0] == "o":
             key = t[2]
             before = [kv for kv in prev[tr][2] if kv is not None and kv[0] != key]
